@@ -12,7 +12,8 @@ from vh import core, gen, seekcheck as K, scenario as S, taskcheck as T
 PROP = 'C07'
 RULE = ("scenario = one log (timestamps in any order, undated lines anywhere, look-alike "
         "dates) x 1..3 since constraints (1..3 matcher variants) x 1..5 simple/sequence "
-        "searches each carrying 0..2 of them x allow_global_constraints on/off x with/without "
+        "searches each carrying 0..2 of them (registered by file path / directory / glob) x "
+        "allow_global_constraints on/off x with/without "
         "file-level constraint; non-trivial = a constrained search has an activation line > "
         "0 and a match after it, or a restriction suppresses an applicable file-level "
         "constraint; distinct by scenario hash")
@@ -42,9 +43,12 @@ def gen_scenario(rng, tier):
         defs.append(d)
     regs = []
     for i in range(len(defs)):
-        regs.append([i, 0, rng.random() < 0.85])
+        # registered by file path, through the directory, or through a glob: the opt-out of
+        # the file-level constraint concerns the FILE the search ends up registered on
+        r = rng.random()
+        regs.append([i, 0 if r < 0.7 else ('' if r < 0.85 else 'f*.log'), rng.random() < 0.85])
     scn = {'files': [{'name': 'f0.log', 'content': content.hex()}], 'defs': defs,
-           'regs': regs, 'constraints': cons}
+           'regs': regs, 'constraints': cons, '_expanded': {'': [0], 'f*.log': [0]}}
     if rng.random() < 0.4:
         scn['global'] = rng.randrange(ncons)
     if rng.random() < 0.2:
